@@ -2,67 +2,80 @@
 
     The translator [tools/alias2ir.py] turns every public callable of pyins (and the
     private helpers it calls) into a [func]: a flow-insensitive SET of statements over
-    abstract locations (SSA-renamed Python variables, instance-state slots, one root for
-    module constants).  This file gives
+    SSA-renamed Python variables, instance-state slot variables and a few distinguished
+    roots (module constants, numpy's global generator).  This file gives
 
     - the IR datatypes,
     - an abstract semantics: a heap of cells (a cell = one mutable buffer / container /
-      object), undirected "may share or contain" links between cells, and an environment
-      [var -> set of cells]; statements are executed in ANY order and ANY number of times
-      (flow-insensitive executions, [run]); a call behaves as any sequence of the effects
-      its callee summary allows ([expand]);
-    - the checker [check_fun] (a may-share closure over the statement set) and
-      [summary_of] (summaries of callees computed by the same closure).
+      object; views of a buffer are the same cell), DIRECTED "contains a reference to"
+      edges between cells and an environment [var -> set of cells]; statements are executed
+      in ANY order and ANY number of times (flow-insensitive executions, [run]); a call
+      behaves as any sequence of the effects its callee summary allows ([expand]);
+    - the checker [check_fun]: a VALIDATOR of a points-to solution ([hints]: for every variable
+      the allocation sites it may be bound to, for every site the sites it may reach) that
+      the translator computes; nothing about the solver is trusted, the solution is
+      re-checked against every statement ([valid_hints]);
+    - [summary_ok]: a validator for the callee summaries used by [expand].
 
-    Soundness is proved in [Proofs/AliasProofs.v]. *)
-From Coq Require Import List Arith Bool Relations.
+    Soundness of [check_fun] is proved in [Proofs/AliasProofs.v]. *)
+From Coq Require Import List Arith Bool PArith FMapPositive Relations.
 Import ListNotations.
 
-Definition var := nat.
+Definition var := positive.
+Definition site := positive.          (* an allocation site = the variable of a [Fresh], or a root *)
 Definition fname := nat.
 Definition sname := nat.   (* name of a state slot: "Class.attr" or a module-level name *)
 
 (** ** IR *)
 Inductive stmt :=
 | Fresh (x : var)                       (* x := newly allocated value *)
-| Alias (x y : var)                     (* x may share memory with / contain / be contained in y *)
-| Mutate (x : var)                      (* a write THROUGH x *)
+| Assign (x y : var)                    (* x may become y, a view of y, or anything reachable from y *)
+| Store (x y : var)                     (* the objects x is bound to may now reference those of y *)
+| Mutate (x : var)                      (* the objects x is bound to are written *)
 | Call (x : var) (f : fname) (args : list var)
+| CallNew (x : var) (f : fname) (args : list var)  (* constructor call: args[0] is the new object *)
 | GlobalRng                             (* a draw from numpy's module-level generator / an unseeded one *)
 | Draw (r : var)                        (* a draw from the generator object held by r *)
 | StateRead (g : sname) (r : var)       (* slot g of the object held by r is read *)
-| StateWrite (g : sname) (r : var).     (* slot g of the object held by r is rebound *)
+| StateWrite (g : sname) (r : var).     (* slot g of the object held by r is rebound / updated *)
 
-(** [f_params]: protected roots (positional parameters, state slots that may hold caller
-    memory, the module-constants root).  [f_owned]: unprotected roots (the receiver object
-    and its private state slots).  [f_grng]: the root standing for numpy's global generator
-    (what [check_random_state None] returns; passed by the translator for an omitted or
-    [None] rng argument).  [f_formals]: for each argument POSITION of a call, the
-    roots that position stands for (position 0 of a method = receiver + all its slots).
-    [f_slots]: the PRIVATE slots of the receiver (slot name, root variable): a write through
-    the content of such a slot is reported to callers as an update of that slot
-    ([s_sw]) and not as a write through the argument ([s_mut]). *)
+(** [f_params]: protected roots (the module-constants root first, positional parameters,
+    state slots that may hold caller memory).  [f_owned]: unprotected roots (the receiver
+    object and its private state slots).  [f_grng]: the root standing for numpy's global
+    generator (what [check_random_state None] returns; passed by the translator for an
+    omitted or [None] rng argument).  [f_psite], [f_osite]: the abstract sites that stand
+    for all entry cells reachable from the protected / the owned roots ([f_grng] is its own
+    site).  [f_formals]: for each argument POSITION of a call, the roots that position
+    stands for (position 0 of a method = receiver + all its slots; the last two positions
+    are the module root and the global generator).  [f_slots]: the PRIVATE slots of the
+    receiver (slot name, root variable): a write to the content of such a slot is
+    reported to callers as an update of that slot ([s_sw]), not as a write through the
+    argument ([s_mut]). *)
 Record func := mkFunc {
   f_params : list var;
   f_owned : list var;
   f_grng : var;
+  f_psite : site;
+  f_osite : site;
   f_formals : list (list var);
   f_slots : list (sname * var);
   f_body : list stmt;
   f_ret : var }.
 
 Record summary := mkSum {
-  s_mut : list nat;                (* argument positions that may be written through *)
-  s_ret : list nat;                (* argument positions the result may share with *)
-  s_lnk : list (nat * nat);        (* argument positions that may become linked *)
+  s_mut : list nat;                (* positions: something reachable from the argument may be written *)
+  s_ret : list nat;                (* positions the result may share with / reference *)
+  s_lnk : list (nat * nat);        (* (i, j): objects reachable from argument i may now reference argument j *)
   s_rng : bool;                    (* draws from a global / unseeded generator *)
-  s_drw : list nat;                (* argument positions whose generator object may be drawn from *)
-  s_sw : list (sname * nat);       (* slot g of (an object reachable from) position i is rebound *)
+  s_drw : list nat;                (* positions whose generator object may be drawn from *)
+  s_sw : list (sname * nat);       (* slot g of (an object reachable from) position i is rebound / updated *)
   s_sr : list (sname * nat) }.
 
 Definition summaries := list (fname * summary).
 
-Definition mem (x : nat) (l : list nat) : bool := existsb (Nat.eqb x) l.
+Definition memn (x : nat) (l : list nat) : bool := existsb (Nat.eqb x) l.
+Definition memp (x : positive) (l : list positive) : bool := existsb (Pos.eqb x) l.
+Definition inclb (a b : list positive) : bool := forallb (fun x => memp x b) a.
 
 Fixpoint lookup {A : Type} (k : nat) (l : list (nat * A)) : option A :=
   match l with
@@ -70,27 +83,35 @@ Fixpoint lookup {A : Type} (k : nat) (l : list (nat * A)) : option A :=
   | (k', v) :: t => if Nat.eqb k k' then Some v else lookup k t
   end.
 
-(** ** Calls are replaced by the effects their summary allows *)
+(** ** Calls are replaced by the effects their summary allows.
+    The translator passes, for every argument, a temporary [t] with [Assign t a] (anything
+    reachable from the argument), so "reachable from position i" is "bound to args[i]". *)
 Definition argn (args : list var) (i : nat) : list var :=
   match nth_error args i with Some a => [a] | None => [] end.
 
-Definition expand_call (sm : summary) (x : var) (args : list var) : list stmt :=
+Definition expand_call (new : bool) (sm : summary) (x : var) (args : list var) : list stmt :=
+  let keep := fun gi : sname * nat => negb (new && Nat.eqb (snd gi) 0) in
   Fresh x
   :: flat_map (fun i => map Mutate (argn args i)) (s_mut sm)
-  ++ flat_map (fun i => map (Alias x) (argn args i)) (s_ret sm)
-  ++ flat_map (fun ij => flat_map (fun a => map (Alias a) (argn args (snd ij)))
+  ++ flat_map (fun i => flat_map (fun a => [Assign x a; Store x a]) (argn args i)) (s_ret sm)
+  ++ flat_map (fun ij => flat_map (fun a => map (Store a) (argn args (snd ij)))
                                   (argn args (fst ij))) (s_lnk sm)
   ++ (if s_rng sm then [GlobalRng] else [])
   ++ flat_map (fun i => map Draw (argn args i)) (s_drw sm)
-  ++ flat_map (fun gi => map (StateWrite (fst gi)) (argn args (snd gi))) (s_sw sm)
-  ++ flat_map (fun gi => map (StateRead (fst gi)) (argn args (snd gi))) (s_sr sm).
+  ++ flat_map (fun gi => map (StateWrite (fst gi)) (argn args (snd gi))) (filter keep (s_sw sm))
+  ++ flat_map (fun gi => map (StateRead (fst gi)) (argn args (snd gi))) (filter keep (s_sr sm)).
 
 Definition expand (S : summaries) (st : stmt) : option (list stmt) :=
   match st with
   | Call x f args =>
       match lookup f S with
-      | Some sm => Some (expand_call sm x args)
+      | Some sm => Some (expand_call false sm x args)
       | None => None                      (* unknown callee: fail closed *)
+      end
+  | CallNew x f args =>
+      match lookup f S with
+      | Some sm => Some (expand_call true sm x args)
+      | None => None
       end
   | _ => Some [st]
   end.
@@ -109,16 +130,15 @@ Fixpoint prims (S : summaries) (body : list stmt) : option (list stmt) :=
 Definition cell := nat.
 
 Record state := mkSt {
-  env : var -> cell -> Prop;        (* cells the value of a variable is or directly refers to *)
-  edges : cell -> cell -> Prop;     (* "shares a buffer with / contains a reference to" *)
+  env : var -> cell -> Prop;        (* cells the value of a variable may be *)
+  edges : cell -> cell -> Prop;     (* "contains a reference to" (directed) *)
   alloc : cell -> Prop }.
 
-(** cells that share memory directly or through any chain of containers / views *)
-Definition conn (s : state) : cell -> cell -> Prop := clos_refl_sym_trans cell (edges s).
+Definition reach (s : state) : cell -> cell -> Prop := clos_refl_trans cell (edges s).
 
-(** [near s x c]: c is reachable from the value of x *)
-Definition near (s : state) (x : var) (c : cell) : Prop :=
-  exists d, env s x d /\ conn s c d.
+(** [below s x c]: c is the value of x or reachable from it *)
+Definition below (s : state) (x : var) (c : cell) : Prop :=
+  exists d, env s x d /\ reach s d c.
 
 Inductive event :=
 | EWrite (c : cell)
@@ -127,10 +147,6 @@ Inductive event :=
 | ESRead (g : sname) (c : cell)
 | ESWrite (g : sname) (c : cell).
 
-(** One step of a primitive statement.  [Alias x y] is deliberately permissive: x may be
-    rebound to any cells reachable from the old x or from y (assignment, view, load from a
-    container, phi), and any new links between what x reaches and what y reaches may be
-    created (store into a container).  A fresh value is modelled by [Fresh]. *)
 Inductive step (s : state) : stmt -> option event -> state -> Prop :=
 | step_fresh : forall x c s',
     ~ alloc s c ->
@@ -139,19 +155,23 @@ Inductive step (s : state) : stmt -> option event -> state -> Prop :=
     (forall a b, edges s' a b <-> edges s a b) ->
     (forall d, alloc s' d <-> (alloc s d \/ d = c)) ->
     step s (Fresh x) None s'
-| step_alias : forall x y s',
-    (forall c, env s' x c -> near s x c \/ near s y c) ->
+| step_assign : forall x y s',
+    (forall c, env s' x c -> env s x c \/ below s y c) ->
     (forall z, z <> x -> forall d, env s' z d <-> env s z d) ->
-    (forall a b, edges s a b -> edges s' a b) ->
-    (forall a b, edges s' a b ->
-        edges s a b \/ ((near s x a \/ near s y a) /\ (near s x b \/ near s y b))) ->
+    (forall a b, edges s' a b <-> edges s a b) ->
     (forall d, alloc s' d <-> alloc s d) ->
-    step s (Alias x y) None s'
-| step_mutate : forall x c, near s x c -> step s (Mutate x) (Some (EWrite c)) s
+    step s (Assign x y) None s'
+| step_store : forall x y s',
+    (forall z d, env s' z d <-> env s z d) ->
+    (forall a b, edges s a b -> edges s' a b) ->
+    (forall a b, edges s' a b -> edges s a b \/ (env s x a /\ below s y b)) ->
+    (forall d, alloc s' d <-> alloc s d) ->
+    step s (Store x y) None s'
+| step_mutate : forall x c, env s x c -> step s (Mutate x) (Some (EWrite c)) s
 | step_rng : step s GlobalRng (Some ERng) s
-| step_draw : forall r c, near s r c -> step s (Draw r) (Some (EDraw c)) s
-| step_sread : forall g r c, near s r c -> step s (StateRead g r) (Some (ESRead g c)) s
-| step_swrite : forall g r c, near s r c -> step s (StateWrite g r) (Some (ESWrite g c)) s.
+| step_draw : forall r c, env s r c -> step s (Draw r) (Some (EDraw c)) s
+| step_sread : forall g r c, env s r c -> step s (StateRead g r) (Some (ESRead g c)) s
+| step_swrite : forall g r c, env s r c -> step s (StateWrite g r) (Some (ESWrite g c)) s.
 
 Definition ev_list (oe : option event) : list event :=
   match oe with Some e => [e] | None => [] end.
@@ -163,22 +183,19 @@ Inductive run (P : list stmt) : state -> list event -> state -> Prop :=
 | run_cons : forall s st oe s' tr s'',
     In st P -> step s st oe s' -> run P s' tr s'' -> run P s (ev_list oe ++ tr) s''.
 
-(** Entry condition: only roots are bound; everything bound is allocated; the receiver's
-    private roots [owned] share no memory with the protected roots [params]; the global
-    generator [g] shares no memory with any other root. *)
-Definition sep (s0 : state) (A B : list var) : Prop :=
-  forall a b c d, In a A -> In b B -> env s0 a c -> env s0 b d -> ~ conn s0 c d.
-
-Definition entry_ok (params owned : list var) (g : var) (s0 : state) : Prop :=
+(** Entry condition.  Every allocated cell belongs to exactly one of three regions
+    ([kind]: 0 = the caller's memory: arguments and module constants, 1 = the receiver's
+    private state, 2 = numpy's global generator); only roots are bound, each to cells of
+    its own region; no reference crosses a region boundary. *)
+Definition entry_ok (params owned : list var) (g : var) (kind : cell -> nat) (s0 : state) : Prop :=
   (forall x c, env s0 x c -> alloc s0 c) /\
-  (forall a b, edges s0 a b -> alloc s0 a /\ alloc s0 b) /\
-  (forall x c, env s0 x c -> In x params \/ In x owned \/ x = g) /\
-  sep s0 owned params /\
-  sep s0 [g] (params ++ owned).
+  (forall a b, edges s0 a b -> alloc s0 a /\ alloc s0 b /\ kind a = kind b) /\
+  (forall x c, env s0 x c ->
+     (In x params /\ kind c = 0) \/ (In x owned /\ kind c = 1) \/ (x = g /\ kind c = 2)).
 
 (** cells reachable from one of the roots [R] at entry *)
 Definition protected (R : list var) (s0 : state) (c : cell) : Prop :=
-  exists p d, In p R /\ env s0 p d /\ conn s0 d c.
+  exists p, In p R /\ below s0 p c.
 
 (** [Prot]: cells of the caller's arguments / module constants; [GProt]: the global
     generator.  [allow_g]: the function is a documented user of the global generator. *)
@@ -192,79 +209,80 @@ Definition safe_event (wl rd : list sname) (allow_g : bool)
   | ESRead g c => In g rd \/ ~ Prot c
   end.
 
-(** ** The checker *)
-Definition edge_list (P : list stmt) : list (var * var) :=
-  flat_map (fun st => match st with Alias x y => [(x, y)] | _ => [] end) P.
+(** ** Points-to solutions and their validation *)
+Definition pmap := PositiveMap.t (list positive).
 
-(** variables adjacent (in either direction) to a member of T and not yet in T *)
-Fixpoint frontier (E : list (var * var)) (T : list var) : list var :=
-  match E with
-  | [] => []
-  | (x, y) :: t =>
-      let r := frontier t T in
-      let r := if mem y T && negb (mem x T) && negb (mem x r) then x :: r else r in
-      if mem x T && negb (mem y T) && negb (mem y r) then y :: r else r
-  end.
+Definition get (m : pmap) (k : positive) : list positive :=
+  match PositiveMap.find k m with Some l => l | None => [] end.
 
-Fixpoint grow (fuel : nat) (E : list (var * var)) (T : list var) : list var :=
-  match fuel with
-  | 0 => T
-  | S k => match frontier E T with
-           | [] => T
-           | nw => grow k E (nw ++ T)
-           end
-  end.
+(** [h_pt x]: sites x may be bound to; [h_cont o]: sites reachable from an object of site o
+    (transitively closed, checked) *)
+Record hints := mkHints { h_pt : pmap; h_cont : pmap }.
 
-(** undirected may-share closure of [seeds]; every productive round adds a variable.
-    (Soundness does not rely on [grow] reaching the fixpoint: [closed] is re-checked.) *)
-Definition taint (E : list (var * var)) (seeds : list var) : list var :=
-  grow (2 * length E + 1) E seeds.
+Definition pt (h : hints) (x : var) : list site := get (h_pt h) x.
+Definition cont (h : hints) (o : site) : list site := get (h_cont h) o.
 
-Definition closed (E : list (var * var)) (T : list var) : bool :=
-  forallb (fun xy => Bool.eqb (mem (fst xy) T) (mem (snd xy) T)) E.
+Definition of_list (l : list (positive * list positive)) : pmap :=
+  fold_left (fun m kv => PositiveMap.add (fst kv) (snd kv) m) l (PositiveMap.empty _).
 
-Definition stmt_ok (wl rd : list sname) (allow_g : bool) (T Tg : list var) (st : stmt) : bool :=
+Definition valid_stmt (h : hints) (st : stmt) : bool :=
   match st with
-  | Fresh _ | Alias _ _ => true
-  | Mutate x => negb (mem x T)
-  | Call _ _ _ => false
+  | Fresh x => memp x (pt h x)
+  | Assign x y => forallb (fun o => memp o (pt h x) && inclb (cont h o) (pt h x)) (pt h y)
+  | Store x y => forallb (fun o => inclb (pt h y) (cont h o)) (pt h x)
+  | _ => true
+  end.
+
+Definition valid_cont (h : hints) : bool :=
+  forallb (fun kv => forallb (fun o' => inclb (cont h o') (snd kv)) (snd kv))
+          (PositiveMap.elements (h_cont h)).
+
+Definition valid_hints (h : hints) (P : list stmt) : bool :=
+  valid_cont h && forallb (valid_stmt h) P.
+
+(** ** The checker *)
+Definition stmt_ok (wl rd : list sname) (allow_g : bool) (h : hints) (ps gs : site) (st : stmt) : bool :=
+  match st with
+  | Fresh _ | Assign _ _ | Store _ _ => true
+  | Mutate x => negb (memp ps (pt h x))
+  | Call _ _ _ | CallNew _ _ _ => false
   | GlobalRng => false
-  | Draw r => allow_g || negb (mem r Tg)
-  | StateWrite g r => mem g wl || negb (mem r T)
-  | StateRead g r => mem g rd || negb (mem r T)
+  | Draw r => allow_g || negb (memp gs (pt h r))
+  | StateWrite g r => memn g wl || negb (memp ps (pt h r))
+  | StateRead g r => memn g rd || negb (memp ps (pt h r))
   end.
 
 (** [wl]: state slots that may be rebound/updated on objects received from the caller
     (the documented exception: the estimate state of sensor models handed to a filter);
     [rd]: state slots that may be read on objects received from the caller;
-    [allow_g]: documented user of numpy's global generator. *)
-Definition check_fun (wl rd : list sname) (allow_g : bool) (S : summaries) (f : func) : bool :=
+    [allow_g]: documented user of numpy's global generator;
+    [h]: a points-to solution in which all protected roots are collapsed into the site
+    [f_psite], all owned roots into [f_osite]. *)
+Definition check_fun (wl rd : list sname) (allow_g : bool) (S : summaries) (h : hints) (f : func) : bool :=
   match prims S (f_body f) with
   | None => false
   | Some P =>
-      let E := edge_list P in
-      let T := taint E (f_params f) in
-      let Tg := taint E [f_grng f] in
-      closed E T
-      && forallb (fun p => mem p T) (f_params f)
-      && forallb (fun g => negb (mem g T)) (f_owned f)
-      && closed E Tg
-      && mem (f_grng f) Tg
-      && (allow_g || forallb (fun p => negb (mem p Tg)) (f_params f ++ f_owned f))
-      && forallb (stmt_ok wl rd allow_g T Tg) P
+      let ps := f_psite f in let os := f_osite f in let gs := f_grng f in
+      valid_hints h P
+      && forallb (fun p => memp ps (pt h p)) (f_params f)
+      && forallb (fun o => memp os (pt h o)) (f_owned f)
+      && memp gs (pt h gs)
+      && memp ps (cont h ps) && memp os (cont h os) && memp gs (cont h gs)
+      (* the receiver's private state never comes to hold or reference caller memory *)
+      && forallb (fun o => negb (memp ps (pt h o))
+                           && forallb (fun t => negb (memp ps (cont h t))) (pt h o)) (f_owned f)
+      && forallb (stmt_ok wl rd allow_g h ps gs) P
   end.
 
-(** every generator drawn from is derived from something the caller supplied (a parameter
-    or the receiver), never from module-level state or from the global generator *)
-Definition seed_plumbed (S : summaries) (f : func) : bool :=
+(** every generator drawn from may come from the caller (a parameter or the receiver) and
+    is never the global generator; no unseeded draw *)
+Definition seed_plumbed (S : summaries) (h : hints) (f : func) : bool :=
   match prims S (f_body f) with
   | None => false
   | Some P =>
-      let E := edge_list P in
-      let Tc := taint E (f_owned f ++ concat (f_formals f)) in
-      let Tg := taint E [f_grng f] in
       forallb (fun st => match st with
-                         | Draw r => mem r Tc && negb (mem r Tg)
+                         | Draw r => negb (memp (f_grng f) (pt h r))
+                                     && (memp (f_psite f) (pt h r) || memp (f_osite f) (pt h r))
                          | GlobalRng => false
                          | _ => true end) P
   end.
@@ -275,78 +293,72 @@ Definition draws (S : summaries) (f : func) : bool :=
   | Some P => existsb (fun st => match st with Draw _ | GlobalRng => true | _ => false end) P
   end.
 
-(** ** Summaries (same closure, per argument position) *)
+(** ** Validation of a summary against the body.
+    [h]: a points-to solution of the same statement set in which every root is its own
+    site.  [rs i]: the sites that stand for "reachable from position i". *)
 Definition positions {A : Type} (l : list A) : list nat := seq 0 (length l).
 
-Definition summary_of (S : summaries) (f : func) : option summary :=
-  match prims S (f_body f) with
-  | None => None
-  | Some P =>
-      let E := edge_list P in
-      let priv := map snd (f_slots f) in
-      let cls := map (taint E) (f_formals f) in
-      let cl := fun i => nth i cls [] in
-      (* closure of a position without the receiver's private slots: used for [s_mut] *)
-      let clp := fun i => taint E (filter (fun v => negb (mem v priv)) (nth i (f_formals f) [])) in
-      let pos := positions cls in
-      if forallb (closed E) cls
-         && forallb (fun i => closed E (clp i)) pos
-         && forallb (fun gv => closed E (taint E [snd gv])) (f_slots f)
-         && forallb (fun ic => forallb (fun r => mem r (snd ic)) (nth (fst ic) (f_formals f) []))
-                    (combine pos cls)
-      then Some {|
-        s_mut := filter (fun i => existsb (fun st => match st with
-                                                     | Mutate x => mem x (clp i)
-                                                     | _ => false end) P) pos;
-        s_ret := filter (fun i => mem (f_ret f) (cl i)) pos;
-        s_lnk := flat_map (fun i => flat_map (fun j =>
-                     if Nat.ltb i j && existsb (fun r => mem r (cl i)) (nth j (f_formals f) [])
-                     then [(i, j)] else []) pos) pos;
-        s_rng := existsb (fun st => match st with
-                                    | GlobalRng => true
-                                    | Draw r => mem r (taint E [f_grng f])
-                                    | _ => false end) P;
-        s_drw := filter (fun i => existsb (fun st => match st with
-                                                     | Draw r => mem r (cl i)
-                                                     | _ => false end) P) pos;
-        s_sw := flat_map (fun st => match st with
-                                    | StateWrite g r =>
-                                        map (fun i => (g, i)) (filter (fun i => mem r (cl i)) pos)
-                                    | Mutate x =>
-                                        flat_map (fun gv => if mem x (taint E [snd gv])
-                                                            then [(fst gv, 0)] else []) (f_slots f)
-                                    | _ => [] end) P;
-        s_sr := flat_map (fun st => match st with
-                                    | StateRead g r =>
-                                        map (fun i => (g, i)) (filter (fun i => mem r (cl i)) pos)
-                                    | _ => [] end) P |}
-      else None
-  end.
+Definition meets (a b : list positive) : bool := existsb (fun x => memp x b) a.
 
-(** Summaries of a program given in dependency order (callees first).  A function whose
-    callee is missing (recursion, wrong order) gets no summary, so every caller fails
-    closed. *)
-Fixpoint summaries_of (S : summaries) (prog : list (fname * func)) : summaries :=
-  match prog with
-  | [] => S
-  | (n, f) :: t =>
-      match summary_of S f with
-      | Some sm => summaries_of ((n, sm) :: S) t
-      | None => summaries_of S t
-      end
+Definition summary_ok (S : summaries) (h : hints) (f : func) (sm : summary) : bool :=
+  match prims S (f_body f) with
+  | None => false
+  | Some P =>
+      let priv := map snd (f_slots f) in
+      let closure := fun roots => roots ++ flat_map (cont h) roots in
+      let rs := fun i => closure (nth i (f_formals f) []) in
+      let rsp := fun i => closure (filter (fun v => negb (memp v priv)) (nth i (f_formals f) [])) in
+      let pos := positions (f_formals f) in
+      let ret_reach := closure (pt h (f_ret f)) in
+      valid_hints h P
+      && forallb (fun r => memp r (pt h r) && memp r (cont h r)) (concat (f_formals f))
+      && forallb (fun st =>
+           match st with
+           | Mutate x =>
+               forallb (fun i => negb (meets (pt h x) (rsp i)) || memn i (s_mut sm)) pos
+               && forallb (fun gv => negb (meets (pt h x) (closure [snd gv]))
+                                     || existsb (fun gi => Nat.eqb (fst gi) (fst gv) && Nat.eqb (snd gi) 0)
+                                                (s_sw sm)) (f_slots f)
+           | GlobalRng => s_rng sm
+           | Draw r =>
+               (negb (memp (f_grng f) (pt h r)) || s_rng sm)
+               && forallb (fun i => negb (meets (pt h r) (rs i)) || memn i (s_drw sm)) pos
+           | StateWrite g r =>
+               forallb (fun i => negb (meets (pt h r) (rs i))
+                                 || existsb (fun gi => Nat.eqb (fst gi) g && Nat.eqb (snd gi) i) (s_sw sm)) pos
+           | StateRead g r =>
+               forallb (fun i => negb (meets (pt h r) (rs i))
+                                 || existsb (fun gi => Nat.eqb (fst gi) g && Nat.eqb (snd gi) i) (s_sr sm)) pos
+           | _ => true
+           end) P
+      && forallb (fun i => negb (meets ret_reach (rs i)) || memn i (s_ret sm)) pos
+      && forallb (fun i => forallb (fun j =>
+             Nat.eqb i j
+             || negb (meets (flat_map (cont h) (nth i (f_formals f) [])) (nth j (f_formals f) []))
+             || existsb (fun ij => Nat.eqb (fst ij) i && Nat.eqb (snd ij) j) (s_lnk sm)) pos) pos
   end.
 
 (** per-function policy: (wl, rd, allow_g) *)
 Definition policy := fname -> list sname * list sname * bool.
 
-Definition check_named (pol : policy) (S : summaries) (nf : fname * func) : bool :=
-  let '(wl, rd, ag) := pol (fst nf) in check_fun wl rd ag S (snd nf).
+(** a translated function: name, IR, collapsed solution (for [check_fun]), per-root solution and
+    summary (for [summary_ok]) *)
+Record entry := mkEntry {
+  e_name : fname;
+  e_fun : func;
+  e_hints : hints;
+  e_hints_sum : hints;
+  e_sum : summary }.
 
-Definition check_prog (pol : policy) (prog : list (fname * func)) : list (fname * bool) :=
-  let S := summaries_of [] prog in
-  map (fun nf => (fst nf, check_named pol S nf)) prog.
+Definition summaries_of (prog : list entry) : summaries :=
+  map (fun e => (e_name e, e_sum e)) prog.
+
+Definition check_entry (pol : policy) (S : summaries) (e : entry) : bool :=
+  let '(wl, rd, ag) := pol (e_name e) in check_fun wl rd ag S (e_hints e) (e_fun e).
 
 (** state slots written anywhere in a list of functions (used to validate read-only lists) *)
-Definition written_slots (prog : list (fname * func)) : list sname :=
-  flat_map (fun nf => flat_map (fun st => match st with StateWrite g _ => [g] | _ => [] end)
-                               (f_body (snd nf))) prog.
+Definition written_slots (S : summaries) (prog : list entry) : list sname :=
+  flat_map (fun e => match prims S (f_body (e_fun e)) with
+                     | None => []
+                     | Some P => flat_map (fun st => match st with StateWrite g _ => [g] | _ => [] end) P
+                     end) prog.
